@@ -14,7 +14,8 @@ from ..pyback import Scratch
 
 PID = "C17"
 
-MARKERS = ["none", "message", "nested_message", "array_field", "alias_array", "imported", "imported_by_imported"]
+MARKERS = ["none", "message", "nested_message", "array_field", "alias_array", "imported", "imported_by_imported", "imported_alias_array",
+           "imported_unused_definition"]
 NAMES = ["Inner", "Outer", "Last", "Nope"]
 
 
@@ -22,7 +23,8 @@ def schema(marker):
     q = lambda m: "'" if marker == m else ""
     files = {}
     files["lib2.bitproto"] = "proto lib2\n\nmessage L2%s {\n    bool w = 1\n}\n" % q("imported_by_imported")
-    files["lib.bitproto"] = "proto lib\n\nimport \"lib2.bitproto\"\n\nmessage LM%s {\n    bool z = 1\n    lib2.L2 l = 2\n}\n" % q("imported")
+    files["lib.bitproto"] = ("proto lib\n\nimport \"lib2.bitproto\"\n\ntype LA = bool[2]%s\n\nmessage Unused%s {\n    bool u = 1\n}\n\n"
+                             "message LM%s {\n    bool z = 1\n    lib2.L2 l = 2\n    LA la = 3\n}\n" % (q("imported_alias_array"), q("imported_unused_definition"), q("imported")))
     files["t.bitproto"] = """proto t
 
 import "lib.bitproto"
